@@ -75,9 +75,10 @@ Print Assumptions C12_solver_stream_replayed_per_chunk.
 (* ... so the statement "the result is the same for every number of worker processes" is REFUTED for the random solver on the
    pool's real chunking: 5 repetitions of 3 steps, 2 processes. *)
 Theorem C12_solver_stream_refuted :
-  exists reps procs L j j', j <> j' /\ (0 < L)%nat /    (nth_error (el_solver_par (el_pool_chunks reps procs) L) j = nth_error (el_solver_par (el_pool_chunks reps procs) L) j')
-    /\ nth_error (el_solver_par (el_pool_chunks reps procs) L) j <> None
-    /\ el_solver_par (el_pool_chunks reps procs) L <> el_solver_seq reps L 0.
+  exists reps procs L j j', j <> j' /\ (0 < L)%nat /\
+    (nth_error (el_solver_par (el_pool_chunks reps procs) L) j = nth_error (el_solver_par (el_pool_chunks reps procs) L) j')
+    /\ (nth_error (el_solver_par (el_pool_chunks reps procs) L) j <> None)
+    /\ (el_solver_par (el_pool_chunks reps procs) L <> el_solver_seq reps L 0).
 Proof. exact el_solver_shared_refuted. Qed.
 Print Assumptions C12_solver_stream_refuted.
 
